@@ -276,6 +276,145 @@ def gen_derive_case(rng):
     return case
 
 
+# ---- several tables with their own separators alive in one process ---------------------
+
+SEP_COUNT, SEP_PREV, SEP_NEXT = ["::", "##", "@"], ["<<", "<-", "<|"], [">>", "->", "|>"]
+
+
+def doc_split(text, seps):
+    """Table._split_name_count_offset as documented, for a table with the given
+    separators; ValueError when a count / offset part is not an integer"""
+    sc, sp, sn = seps
+    name, count, offset = text, None, 0
+    if sp in name:
+        name, o = name.split(sp, 1)
+        offset -= int(o)
+    elif sn in name:
+        name, o = name.split(sn, 1)
+        offset += int(o)
+    if sc in name:
+        name, c = name.split(sc, 1)
+        count = int(c)
+    return name, count, offset
+
+
+def splits_ok(text, seps):
+    try:
+        doc_split(text, seps)
+        return True
+    except ValueError:
+        return False
+
+
+def gen_multi_case(rng):
+    """2-3 tables alive in one process whose separators differ (constructor
+    arguments; sometimes changed later by t._sep_count = ...), row names that
+    contain ANOTHER table's separators as ordinary characters, and the same
+    selector texts sent to each of them in random interleaving through every
+    route (get_index, //, table[col,row], table[index,row] = v, get_index_unique),
+    lookups that raise KeyError included"""
+    nt = rng.choice([2, 2, 3])
+    while True:
+        seps = [[rng.choice(SEP_COUNT), rng.choice(SEP_PREV), rng.choice(SEP_NEXT)] for _ in range(nt)]
+        if len({tuple(x) for x in seps}) == nt:
+            break
+    base = ["x", "y", "z"]
+
+    def sel_text(tr, name=None):
+        nm = name or rng.choice(base)
+        cnt = rng.choice([None, 0, 1, 1, 2, -1, -2])
+        off = rng.choice([0, 0, 0, 1, -1, 2])
+        t = nm + ("" if cnt is None else f"{tr[0]}{cnt}")
+        return t + (f"{tr[2]}{off}" if off > 0 else f"{tr[1]}{-off}" if off < 0 else "")
+
+    def free_of(text, tr):
+        return not any(sp in text for sp in tr)
+
+    tables, alphas = [], []
+    for k in range(nt):
+        # names that look like count/offset selectors of the other tables
+        odd = [t for j in range(nt) if j != k for t in (sel_text(seps[j]) for _ in range(4))]
+        alpha = base + [t for t in odd if t not in base and all(free_of(t, seps[j]) for j in [k])][:rng.choice([0, 1, 2])]
+        n = rng.randint(2, 8)
+        idx = [rng.choice(alpha) for _ in range(n)]
+        tables.append({"idx": idx, "cols": [["x", [rng.randint(-50, 50) for _ in range(n)]]], "seps": list(seps[k])})
+        alphas.append(alpha)
+    cur_seps = [list(x) for x in seps]
+    steps = []
+    for _ in range(rng.randint(3, 8)):
+        k0 = rng.randrange(nt)
+        text = sel_text(cur_seps[k0], rng.choice(alphas[k0])) if rng.random() < 0.8 else rng.choice(alphas[k0])
+        order = list(range(nt))
+        rng.shuffle(order)
+        for k in order + ([rng.randrange(nt)] if rng.random() < 0.3 else []):
+            if not splits_ok(text, cur_seps[k]):
+                continue        # int('1<-2'): ValueError, not a selector of that table
+            z = rng.random()
+            if z < 0.45:
+                steps.append([k, [rng.choice(["getindex", "floordiv"]), ["str", text]]])
+            elif z < 0.7:
+                steps.append([k, ["getcell", rng.choice(["name", "x"]), ["str", text]]])
+            elif z < 0.85:
+                steps.append([k, ["setcell", "name", ["str", text], rng.choice(alphas[k])]])
+            else:
+                steps.append([k, ["unique"]])
+        if rng.random() < 0.25:
+            # t._sep_* = ... : only to a value that no name of that table contains
+            k = rng.randrange(nt)
+            i = rng.randrange(3)
+            v = rng.choice([SEP_COUNT, SEP_PREV, SEP_NEXT][i])
+            new = list(cur_seps[k]); new[i] = v
+            if all(free_of(a, new) for a in alphas[k]):
+                steps.append([k, ["setsep", ["count", "previous", "next"][i], v]])
+                cur_seps[k] = new
+    return {"idx": [], "cols": [], "ops": [], "multi": {"tables": tables, "steps": steps}}
+
+
+def emit_multi_cases(cases, results):
+    """one case file of multi-table scenarios; the split oracle as an explicit table"""
+    N = vlib.Interner()
+    SP = vlib.Interner()          # separator triples
+    split_entries, items, ids, unrep = {}, [], [], []
+
+    def use(seps, text):
+        nm, cnt, off = doc_split(text, seps)
+        if (nm, cnt, off) != (text, None, 0):
+            split_entries[(SP(tuple(seps)), N(text))] = f"(({cn(SP(tuple(seps)))}, {cn(N(text))}), ({cn(N(nm))}, {copt(cnt, cz)}, {cz(off)}))"
+        return cn(N(text))
+
+    for i, (c, res) in enumerate(zip(cases, results)):
+        m = c["multi"]
+        seps = [list(t["seps"]) for t in m["tables"]]
+        tabs = [f"(mkStab {cn(SP(tuple(t['seps'])))} (mkTable {clist([cn(N(x)) for x in t['idx']])} " +
+                clist([f"({cn(N('col:' + k))}, {clist([cz(v) for v in vals])})" for k, vals in t["cols"]]) + " None))" for t in m["tables"]]
+        steps, ok = [], True
+        rs = [emit_result(r, N) for r in res]
+        if any(r is None for r in rs):
+            unrep.append(i)
+            continue
+        for k, op in m["steps"]:
+            kind = op[0]
+            if kind == "setsep":
+                j = ["count", "previous", "next"].index(op[1])
+                seps[k][j] = op[2]
+                steps.append(f"({k}%nat, MSetSeps {cn(SP(tuple(seps[k])))} {'true' if op[1] == 'count' else 'false'})")
+            elif kind in ("getindex", "floordiv") and op[1][0] == "str":
+                steps.append(f"({k}%nat, MGetIndex {use(seps[k], op[1][1])})")
+            elif kind == "getcell" and op[2][0] == "str":
+                cr = "CIdx" if op[1] == "name" else f"(CCol {cn(N('col:' + op[1]))})"
+                steps.append(f"({k}%nat, MGetCell {cr} {use(seps[k], op[2][1])})")
+            elif kind == "setcell" and op[1] == "name" and op[2][0] == "str":
+                steps.append(f"({k}%nat, MSetCellN {use(seps[k], op[2][1])} {cn(N(op[3]))})")
+            else:
+                steps.append(f"({k}%nat, MOp ({emit_op(op, N)}))")
+        items.append(f"({clist(tabs)},\n  {clist(steps)},\n  {clist(rs)})")
+        ids.append(i)
+    text = ("From Coq Require Import List ZArith NArith.\nFrom XD Require Import model.Table model.TableMulti run.RunTable run.RunTableMulti.\n"
+            "Import ListNotations.\nDefinition sp : splittab := " + clist(list(split_entries.values())) + ".\n"
+            "Definition cases : list mtcase :=\n " + ";\n ".join(items).join(["[", "]"]) + ".\nEval vm_compute in (mtmismatches sp cases).\n")
+    return text, ids, unrep
+
+
 def small_scope_cases(maxlen):
     """every index column over a 3-name alphabet up to maxlen x every
     name/count/offset selector form (exhaustive for C07's lookup clause)."""
@@ -437,10 +576,11 @@ def correspondence(ctx, cases, tag):
     unrepresentable = []
     # at most 250 cases per file, and few long tables per file (weight = rows x operations)
     groups = []
+    multi_ids = [i for i, c in enumerate(cases) if "multi" in c]
     for derive in (False, True):       # lookup/derive/lookup chains use the evaluator of model/TableDerive.v
         curg, wsum = [], 0
         for i, c in enumerate(cases):
-            if bool(c.get("derive")) != derive:
+            if bool(c.get("derive")) != derive or "multi" in c:
                 continue
             wgt = (len(c["idx"]) + 5) * (len(c["ops"]) + 1) * (4 if derive else 1)
             if curg and (len(curg) >= 250 or wsum + wgt > 60000):
@@ -467,13 +607,16 @@ def correspondence(ctx, cases, tag):
                          "Import ListNotations.\nDefinition cases : list tcase :=\n " + clist(items).replace("); (mkTable", ");\n (mkTable") +
                          ".\nEval vm_compute in (mismatches cases).\n")
         index_of.append(ids)
+    for g in vlib.chunks(multi_ids, 120):       # several tables with their own separators: model/TableMulti.v
+        text, ids, unrep = emit_multi_cases([cases[i] for i in g], [results[i] for i in g])
+        texts.append(text); index_of.append([g[k] for k in ids]); unrepresentable += [g[k] for k in unrep]
     mism = list(unrepresentable)
     for (rc, so, se), ids in zip(vlib.coq_eval_files(ctx, texts, tag), index_of):
         lst = vlib.parse_nat_list(so) if rc == 0 else None
         if lst is None:
             raise vlib.InfraError(f"case file evaluation failed: rc={rc} {se[-800:]} {so[-300:]}")
         mism += [ids[k] for k in lst]
-    ctx.evaluations += sum(len(c["ops"]) for c in cases)
+    ctx.evaluations += sum(len(c["ops"]) + len(c.get("multi", {}).get("steps", [])) for c in cases)
     ctx.traces += len(cases)
     for c in cases:
         if nontrivial(c):
@@ -494,6 +637,21 @@ def shrink(case, fails):
     return dict(case, ops=ops)
 
 
+def shrink_multi(case):
+    """drop steps of a multi-table scenario while the oracle still fails"""
+    steps = list(case["multi"]["steps"])
+    if not oracle_fails(case):
+        return case
+    i = 0
+    while i < len(steps):
+        cand = dict(case, multi=dict(case["multi"], steps=steps[:i] + steps[i + 1:]))
+        if cand["multi"]["steps"] and oracle_fails(cand):
+            steps = cand["multi"]["steps"]
+        else:
+            i += 1
+    return dict(case, multi=dict(case["multi"], steps=steps))
+
+
 def oracle_fails(case):
     r = vlib.run_impl("table_runner.py", {"cases": [case]})
     return any(b is not None and a != b for a, b in zip(r["results"][0], r["oracle"][0]))
@@ -508,14 +666,18 @@ def run(ctx):
                 "and out of range, get_index_unique, then the same after renaming a row / replacing the column; plus 500 (quick) / 8000 (thorough) "
                 "lookup / derive / lookup chains: name lookups on the current table, then t+t, t+t.rows[..], t*k, _copy, rows[..], cols[..], "
                 "Table.concatenate or _t makes a new table object current, or the index is re-pointed to another string column (t._index = ..., back and forth), or the index column is deleted (del / pop) and assigned again under its name (item / attribute style; ordinary columns too), then lookups, writes by name::count and get_index_unique on the result "
-                "over the whole range of occurrence numbers of ITS index column, 1-3 times; non-trivial = an index-column "
+                "over the whole range of occurrence numbers of ITS index column, 1-3 times; plus 300 (quick) / 5000 (thorough) scenarios with 2-3 tables "
+                "alive in one process that differ in sep_count / sep_previous / sep_next (constructor arguments, sometimes t._sep_* = ... later), "
+                "row names containing another table's separators, the same selector texts sent to each in random interleaving through "
+                "get_index, //, table[col,row], table[index,row] = v and get_index_unique (KeyError included); non-trivial = an index-column "
                 "mutation followed by a name-based lookup; distinct by (table, ops)")
-    proof_ok = vlib.standard_proof_part(ctx, "props/C07.v", allowed_axioms=(), extra_targets=["run/RunTable.vo", "run/RunTableDerive.vo"])
+    proof_ok = vlib.standard_proof_part(ctx, "props/C07.v", allowed_axioms=(), extra_targets=["run/RunTable.vo", "run/RunTableDerive.vo", "run/RunTableMulti.vo"])
     n = ctx.pick(600, 12000)
     cases = small_scope_cases(ctx.pick(3, 5)) + [gen_case(ctx.rng) for _ in range(n)]
     # long tables last and few per case file (the literals are long)
     cases += [gen_long_case(ctx.rng) for _ in range(ctx.pick(48, 600))]
     cases += [gen_derive_case(ctx.rng) for _ in range(ctx.pick(500, 8000))]
+    cases += [gen_multi_case(ctx.rng) for _ in range(ctx.pick(300, 5000))]
     results, oracle, orc_fail, mism = correspondence(ctx, cases, "c")
     ctx.samples = [{"case": cases[-1], "impl_results": results[-1]}, {"case": cases[len(cases) // 2], "impl_results": results[len(cases) // 2]}]
     dist = {}
@@ -531,12 +693,19 @@ def run(ctx):
                                      "rows_hist": {str(k): sum(1 for c in cases if len(c["idx"]) == k) for k in range(0, 13)},
                                      "long_tables_17_to_200_rows": sum(1 for c in cases if len(c["idx"]) >= 17),
                                      "unicode_index_columns": sum(1 for c in cases if c.get("idx_dtype") == "unicode"),
-                                     "lookup_derive_lookup_chains": sum(1 for c in cases if c.get("derive"))}
+                                     "lookup_derive_lookup_chains": sum(1 for c in cases if c.get("derive")),
+                                     "multi_table_separator_scenarios": sum(1 for c in cases if "multi" in c)}
     ctx.obligations.append(("correspondence: model = implementation on every generated history", not mism, f"{len(mism)} mismatching cases"))
     ctx.obligations.append(("oracle: linear scan of the current index column agrees with the implementation", not orc_fail, f"{len(orc_fail)} failing cases"))
     if orc_fail:
-        i, j, a, b = orc_fail[0]
-        small = shrink(cases[i], oracle_fails)
+        # state shared between tables may outlive a case (a chunk of cases runs in one process):
+        # prefer a case that fails when run alone in a fresh process
+        i = orc_fail[0][0]
+        for cand in sorted(orc_fail, key=lambda x: len(cases[x[0]]["ops"]) + len(cases[x[0]].get("multi", {}).get("steps", [])))[:40]:
+            if oracle_fails(cases[cand[0]]):
+                i = cand[0]
+                break
+        small = shrink_multi(cases[i]) if "multi" in cases[i] else shrink(cases[i], oracle_fails)
         r = vlib.run_impl("table_runner.py", {"cases": [small]})
         vlib.violation(ctx, {"kind": "oracle", "what": "table row resolution differs from a scan of the current index column",
                              "case": small, "impl_results": r["results"][0], "scan_oracle": r["oracle"][0],
